@@ -840,8 +840,22 @@ impl Prioritize {
                             }))
                         }
                         Some(Frame::PushPromise(pp)) => {
-                            let mut pushed =
-                                stream.store_mut().find_mut(&pp.promised_id()).unwrap();
+                            let mut pushed = match stream.store_mut().find_mut(&pp.promised_id()) {
+                                Some(pushed) => pushed,
+                                None => {
+                                    // The promised stream is gone already (e.g. it was
+                                    // failed by a GOAWAY received while the promise was
+                                    // still queued): there is nothing left to announce.
+                                    tracing::trace!("dropping PUSH_PROMISE of a closed stream");
+                                    if !stream.pending_send.is_empty()
+                                        || stream.state.is_scheduled_reset()
+                                    {
+                                        self.pending_send.push(&mut stream);
+                                    }
+                                    counts.transition_after(stream, is_pending_reset);
+                                    continue;
+                                }
+                            };
                             pushed.is_pending_push = false;
                             // Transition stream from pending_push to pending_open
                             // if possible
